@@ -9,6 +9,24 @@ From PAV Require Import Base.Res Base.NumOps Model.C20 Model.C20Spec Proofs.C20.
 Import ListNotations.
 Local Open Scope R_scope.
 
+(* ------------------------------------------------------------ ArrayTriangles: index rows
+   idx_in_range is the guard under which vertices[indices] does not raise; the statements about ArrayTriangles
+   below carry it, the raising branch is its own statement, and every operation returns index rows in range *)
+Theorem C20_array_triangles_in_range : forall (A : @atri ROps),
+  idx_in_range A = true -> a_triangles_checked A = Ok (a_triangles A).
+Proof. exact (@a_triangles_checked_ok ROps). Qed.
+Theorem C20_array_triangles_out_of_range : forall (A : @atri ROps),
+  idx_in_range A = false -> a_triangles_checked A = Raise IndexError.
+Proof. exact (@a_triangles_checked_raise ROps). Qed.
+Theorem C20_array_triangle_corners_are_vertices : forall (A : @atri ROps) (t : rtri),
+  idx_in_range A = true -> In t (a_triangles A) ->
+  In (v0 t) (snd A) /\ In (v1 t) (snd A) /\ In (v2 t) (snd A).
+Proof. exact (@a_triangles_corners ROps). Qed.
+Theorem C20_array_outputs_in_range : forall (A : @atri ROps),
+  idx_in_range (a_up_sample A) = true /\ idx_in_range (a_neighborhood A) = true
+  /\ forall sel, idx_in_range (a_for_indexes A sel) = true.
+Proof. exact a_outputs_in_range. Qed.
+
 (* ------------------------------------------------------------ up-sampling: count, subdivision, tiling, area, corners *)
 Theorem C20_count_quadruples : forall (ts : list rtri),
   length (up_sample_triangles ts) = (4 * length ts)%nat.
@@ -50,8 +68,8 @@ Proof. exact vertices_preserved. Qed.
 
 (* ArrayTriangles.up_sample: de-duplicating the corners (np.unique) does not change the triangles *)
 Theorem C20_array_up_sample : forall (A : @atri ROps),
-  a_triangles (a_up_sample A) = up_sample_triangles (a_triangles A).
-Proof. exact a_up_sample_triangles. Qed.
+  idx_in_range A = true -> a_triangles (a_up_sample A) = up_sample_triangles (a_triangles A).
+Proof. exact a_up_sample_triangles_g. Qed.
 
 (* CoordinateArrayTriangles.up_sample: the lattice children, with the halved side, the shifted y offset and
    flipped := true, are the midpoint children of the parents' triangles -- for both parities, both flip states,
@@ -101,8 +119,9 @@ Theorem C20_neighborhood_members : forall (ts : list rtri) (n : rtri),
 Proof. exact neighborhood_spec. Qed.
 (* ArrayTriangles.neighborhood (np.unique on corners, np.sort + np.unique on index rows) keeps that set *)
 Theorem C20_array_neighborhood_exact : forall (A : @atri ROps),
+  idx_in_range A = true ->
   same_triangle_set (a_triangles (a_neighborhood A)) (neighborhood_triangles (a_triangles A)).
-Proof. exact a_neighborhood_exact. Qed.
+Proof. exact a_neighborhood_exact_g. Qed.
 (* CoordinateArrayTriangles.neighborhood: the lattice neighbours are the edge reflections, both parities *)
 Theorem C20_coordinate_neighbours_are_reflections : forall (h : T ROps) (S : cs ROps) (c : zpt),
   let t := @c_tri ROps h S c in
@@ -115,9 +134,9 @@ Proof. exact c_neighborhood_exact. Qed.
 
 (* ------------------------------------------------------------ selections; the two representations *)
 Theorem C20_array_for_indexes : forall (A : @atri ROps) (sel : list nat),
-  Forall (fun i => (i < length (fst A))%nat) sel ->
+  idx_in_range A = true -> Forall (fun i => (i < length (fst A))%nat) sel ->
   map Some (a_triangles (a_for_indexes A sel)) = map (nth_error (a_triangles A)) sel.
-Proof. exact a_for_indexes_triangles. Qed.
+Proof. exact a_for_indexes_triangles_g. Qed.
 Theorem C20_coordinate_for_indexes : forall (h : T ROps) (S : cs ROps) (sel : list nat),
   Forall (fun i => (i < length (c_coords S))%nat) sel ->
   map Some (@c_triangles ROps h (c_for_indexes S sel)) = map (nth_error (@c_triangles ROps h S)) sel.
@@ -126,11 +145,9 @@ Proof. exact (@c_for_indexes_triangles ROps). Qed.
 Theorem C20_representations_agree : forall (h : T ROps) (S : cs ROps),
   a_triangles (@c_with_vertices ROps h S (snd (c_repr h S))) = c_triangles h S.
 Proof. exact c_representations_agree. Qed.
-Theorem C20_representation_indices_in_range : forall (h : T ROps) (S : cs ROps) (r : idx3),
-  In r (fst (@c_repr ROps h S)) ->
-  (i0 r < length (snd (@c_repr ROps h S)) /\ i1 r < length (snd (@c_repr ROps h S))
-   /\ i2 r < length (snd (@c_repr ROps h S)))%nat.
-Proof. exact c_repr_idx_ok. Qed.
+Theorem C20_representation_indices_in_range : forall (h : T ROps) (S : cs ROps),
+  idx_in_range (@c_repr ROps h S) = true.
+Proof. exact c_repr_in_range. Qed.
 
 (* ------------------------------------------------------------ containment *)
 (* Point.mask is the closed-triangle membership test; a degenerate triangle contains nothing (x/0 -> nan) *)
@@ -145,8 +162,9 @@ Theorem C20_shape_mask_if_reference_point_inside : forall (s : shape ROps) (t : 
 Proof. exact shape_mask_if_reference_point_inside. Qed.
 (* containing_indices returns exactly the positions whose triangle the shape's mask accepts, in both representations *)
 Theorem C20_array_containing_indices : forall (A : @atri ROps) (s : shape ROps) (i : nat),
-  In i (a_containing A s) <-> exists t, nth_error (a_triangles A) i = Some t /\ shape_mask s t = true.
-Proof. exact (@a_containing_spec ROps). Qed.
+  idx_in_range A = true ->
+  (In i (a_containing A s) <-> exists t, nth_error (a_triangles A) i = Some t /\ shape_mask s t = true).
+Proof. exact a_containing_spec_g. Qed.
 Theorem C20_coordinate_containing_indices : forall (h : T ROps) (S : cs ROps) (s : shape ROps) (i : nat),
   In i (@c_containing ROps h S s) <-> exists t, nth_error (@c_triangles ROps h S) i = Some t /\ shape_mask s t = true.
 Proof. exact c_containing_spec. Qed.
@@ -168,12 +186,14 @@ Definition ex_t : rtri := ((0, 0), (4, 0), (1, 3)).
 Example C20_hyps_satisfiable :
   nondegenerate ex_t /\ inside ex_t (2, 1) /\ strictly_inside ex_t (2, 1)
   /\ Forall (fun i => (i < length (fst ([(0, 1, 2); (1, 2, 3)]%nat, [(0, 0); (4, 0); (1, 3); (5, 3)])))%nat) [1; 0; 1]%nat
+  /\ idx_in_range ([(0, 1, 2); (1, 2, 3)]%nat, [(0, 0); (4, 0); (1, 3); (5, 3)]) = true
+  /\ idx_in_range ([(0, 1, 4)]%nat, [(0, 0); (4, 0); (1, 3); (5, 3)]) = false
   /\ 0 <= sqrt 3 / 2.
 Proof.
   unfold nondegenerate, inside, strictly_inside, ex_t, signed2, comb, v0, v1, v2. cbn [fst snd length].
   split; [lra|]. split; [exists (1 / 4), (5 / 12), (1 / 3); repeat split; try lra; f_equal; lra|].
   split; [exists (1 / 4), (5 / 12), (1 / 3); repeat split; try lra; f_equal; lra|].
-  split; [repeat constructor|]. apply Rmult_le_pos; [apply sqrt_pos|lra].
+  split; [repeat constructor|]. split; [reflexivity|]. split; [reflexivity|]. apply Rmult_le_pos; [apply sqrt_pos|lra].
 Qed.
 
 Print Assumptions C20_count_quadruples. Print Assumptions C20_up_sample_is_subdivision.
@@ -193,4 +213,6 @@ Print Assumptions C20_shape_mask_if_reference_point_inside. Print Assumptions C2
 Print Assumptions C20_coordinate_containing_indices. Print Assumptions C20_checker_inside_is_inside.
 Print Assumptions C20_coordinate_vertices_preserved. Print Assumptions C20_checker_children_are_subdivision.
 Print Assumptions C20_checker_neighbours_are_neighbours.
+Print Assumptions C20_array_triangles_in_range. Print Assumptions C20_array_triangles_out_of_range.
+Print Assumptions C20_array_triangle_corners_are_vertices. Print Assumptions C20_array_outputs_in_range.
 Print Assumptions C20_lattice_children_distinct. Print Assumptions C20_lattice_child_has_unique_parent.
